@@ -329,7 +329,7 @@ def check_std_properties(ctx, db):
         guards = [norm(a.child('cond').text()) for a in c.ancestors() if a.k == 'IfStmt']
         if not any('state.config_flags &' in g or g == 'write_cell_offsets' for g in guards):
             bad.append('%s written without a config-flag guard' % nm)
-        if not any(norm(r.args[1].text()) == nm and r.id < c.id and norm(r.args[0].text()) == norm(c.args[0].text()) for r in rems):
+        if not any(norm(r.args[1].text()) == nm and r.pos < c.pos and norm(r.args[0].text()) == norm(c.args[0].text()) for r in rems):
             bad.append('%s set without removing the stale value first' % nm)
     ctx.check(not bad and n >= 12, 'R-DEP', 'write_oas/standard-properties', w.loc(), 'all %d standard-property writes are under a config bit and follow a remove_property of the same name on the same list' % n, '; '.join(bad[:3]))
     # which name under which flag (value of the macro folded by clang)
@@ -491,7 +491,7 @@ def check_modal_repetition(ctx, db):
     body = [s_ for s_ in r.body.c if s_ is not None]
     t0 = [i for i in body if i.k == 'IfStmt' and norm(i.child('cond').text()) == '(type == 0)']
     writes = [s_ for s_ in body if any((x.k == 'CXXMemberCallExpr' and norm(x.child('obj').text()) == 'repetition') or ((is_assign(x) or x.k == 'CompoundAssignOperator') and norm(x.child('lhs').text()).startswith('repetition.')) for x in s_.walk())]
-    ok = len(t0) == 1 and any(x.k == 'ReturnStmt' for x in t0[0].child('then').walk()) and writes and all(t0[0].id < w_.id for w_ in writes)
+    ok = len(t0) == 1 and any(x.k == 'ReturnStmt' for x in t0[0].child('then').walk()) and writes and all(t0[0].pos < w_.pos for w_ in writes)
     ctx.check(ok, 'R-DEP', 'oasis_read_repetition/type0-keeps-modal', r.loc(), 'type 0 returns before anything is stored in (or cleared from) the modal repetition', 'the modal repetition is modified before the type-0 (reuse) test')
     f = db.fn('gdstk::read_oas')
     calls = [c for c in f.walk() if c.k == 'CallExpr' and c.callee == 'gdstk::oasis_read_repetition']
